@@ -3,6 +3,8 @@
 # run the quick check of its property against that worktree (VERIF_REPO), expect a VIOLATION; prints one line each.
 # Evidence files in /verif are restored afterwards (evidence must only come from /repo itself).
 pat="${1:-*}"
+here="$(cd "$(dirname "$0")/.." && pwd)"      # the /verif copy this script lives in (a vp-run snapshot or /verif itself)
+cd "$here"
 wt=/tmp/wt-regress-$$
 git -C /repo worktree add --detach $wt >/dev/null 2>&1 || { echo "cannot create worktree"; exit 3; }
 trap 'git -C /repo worktree remove --force '$wt' >/dev/null 2>&1' EXIT
@@ -13,15 +15,15 @@ run() {   # name prop patch
   case "$out" in *VIOLATION*) r=CAUGHT;; *) r=MISSED;; esac
   echo "$1 [$2] :: $r :: $out"
 }
-for d in /verif/seeded/$pat/; do
+for d in $here/seeded/$pat/; do
   [ -f $d/meta.json ] || continue
   name=$(basename $d); prop=$(/venv/bin/python -c "import json;print(json.load(open('$d/meta.json'))['property'])")
   p=$d/patch.diff; [ -f $d/patch_rebased.diff ] && p=$d/patch_rebased.diff
   run $name $prop $p
 done
-for m in /verif/mutants/$pat.patch; do
+for m in $here/mutants/$pat.patch; do
   [ -f $m ] || continue
   name=$(basename $m .patch); prop=${name%%-*}
   run mutant:$name $prop $m
 done
-git -C /verif checkout -- evidence
+git -C "$here" checkout -- evidence
